@@ -610,6 +610,15 @@ def run_case(case):
         # configured the endpoint still closes in bounded time (the timer runs of C14 are reused; here the half-open outcome counts)
         from vf.props import c14
         obs14 = dict(runs=0, mute_peer_closures=0)
+        # a session that never came about (the peer's SESS_INIT was refused) ends like any other: SESS_TERM, the peer's answer, close
+        for role in ('passive', 'active'):
+            for how in ('mru0', 'nul'):
+                for answer in (True, False):
+                    for item in c14.run_failed_negotiation(role, 2, how, answer, obs14):
+                        violations.append(dict(key=classify('half-open', item), what='[half-open] %s' % item, detail=dict(role=role, how=how, answer=answer)))
+                    evaluations += 1
+                    obs['runs'] += 1
+                    classes.add('failed-negotiation|%s|%s|%s' % (role, how, answer))
         for role in ('passive', 'active'):
             for pending in ('final-ack', 'half-transfer'):
                 for item in c14.run_silent_after_reply(role, 2, 0, pending, obs14):
